@@ -259,6 +259,9 @@ def enum_poly(tier, seed):
     yield ("segment", "2d")
     yield ("segment", "3d")
     yield ("cuboid", "3d")
+    yield ("collections", "2d")
+    yield ("collections", "z=1")
+    yield ("collections", "skew")
 
 
 EMB = {
@@ -312,6 +315,32 @@ def case_poly(ctx, cfg):
             if e is not None or not close(d, want, 1e-7):
                 ctx.fail("dist:cuboid", "dist", {"q": q}, want, e if e is not None else d)
                 return
+        return
+    if name == "collections":
+        # PolygonCollections with fewer / as many / more members than vertices; every member measured to its own edges
+        quads = [POLYS2["square"], POLYS2["dart"], [(1, 1), (5, 1), (5, 2), (1, 2)], [(-2, -2), (-1, -2), (-1, 3), (-2, 3)], [(0, 0), (1, 0), (1, 1), (0, 1)]]
+        lift = (lambda x, y: (x, y)) if emb == "2d" else EMB[emb]
+        qs = [q for q in itertools.product(range(-3, 7), repeat=2)]
+        for k in (1, 2, 4, 5):
+            polys = quads[:k]
+            PC = G.PolygonCollection([G.Polygon(*[P(G, lift(*v), 1) for v in poly]) for poly in polys])
+            for q in qs:
+                if emb == "2d" and any(pip(poly, q) == "inside" for poly in polys):
+                    ctx.skipped += 1
+                    continue
+                if emb == "2d":
+                    want = np.array([float(min(seg_dist(q, poly[i], poly[(i + 1) % 4]) for i in range(4))) for poly in polys])
+                else:
+                    # query points in the plane of the polygons: distance 0 inside and on the boundary
+                    want = np.array([0.0 if pip(poly, q) != "outside" else float(min(seg_dist(lift(*q), lift(*poly[i]), lift(*poly[(i + 1) % 4])) for i in range(4))) for poly in polys])
+                ctx.state((name, emb, k, q))
+                qq = P(G, lift(*q), 1)
+                for x, y, tag in ((PC, qq, "collection,point"), (qq, PC, "point,collection")):
+                    d, e = ctx.call(G.dist, x, y)
+                    ctx.trace(k)
+                    if e is not None or np.shape(d) != (k,) or not np.allclose(d, want, atol=1e-7):
+                        ctx.fail(f"dist:polygoncollection:{emb if emb == '2d' else '3d'}:{type(e).__name__ if e is not None else 'value'}", "dist", {"polygons": polys, "embedding": emb, "q": q, "order": tag}, want, e if e is not None else d)
+                        return
         return
     poly = POLYS2[name]
     n = len(poly)
